@@ -25,7 +25,7 @@ def build():
                 ("T-STR", r"punycode::encode\(&raw_name\)", "crate::vstr::punycode_encode(&raw_name)"),
                 ("T-FMT", r"format!\(\"xn--\{(?P<v>\w+)\}\"\)", lambda m: f'crate::vstr::cat2("xn--", &{m.group("v")})'),
                 ("T-ITER", r"idna_parts\.join\(\"\.\"\)", "crate::vstr::join_strings(&idna_parts, '.')")],
-        at=[("before", "parts.iter()", 1, "it:"),
+        at=[("loop_iter", None, 1, "it:"),
             ("before_tail", None, 1, """
     proof {
         let ps = views(parts@);
